@@ -310,7 +310,7 @@ func genC06(ctx *Ctx) error {
 }
 
 func runC06(ctx *Ctx) error {
-	ctx.Res.Rule = "exhaustive table: framework(7) x location(4) x {styled int32/uint16/int8/bool/date/uuid/int-array/string, label and matrix arrays in the path, JSON content, pass-through} x required x applicable stimulus {absent, valid, valid with '%' and '+' (header, cookie), wrong type, overflow, bad date, bad uuid, malformed JSON, a JSON value followed by more data, wrong prefix, duplicated header, empty} x {default error path, configured error handler}; one request per cell; plus every subset of omitted parameters on a 5-parameter operation; CORR of the runtime model (value classes); CORR of the integer layer: boundary and seeded texts (signs, leading zeros, 32/64-bit bounds and their neighbours, junk, non-ASCII digits) through strconv.ParseInt and through the runtime binder into int32/int64 vs IntParse.parseInt; CORR of the date layer: fixed and seeded texts (leap days, month/day bounds, short and long fields, other separators, junk) through time.Parse and the runtime binder into openapi_types.Date vs DateParse.parse; the same for booleans (every letter-case spelling) and UUIDs (canonical, urn, braces, 32 digits, damaged texts) vs IntParse.parseBool / UuidParse.parse; non-trivial = every cell"
+	ctx.Res.Rule = "exhaustive table: framework(7) x location(4) x {styled int32/uint16/int8/bool/date/uuid/int-array/string, label and matrix arrays in the path, JSON content, pass-through} x required x applicable stimulus {absent, valid, valid with '%' and '+' (header, cookie), wrong type, overflow, bad date, bad uuid, malformed JSON, a JSON value followed by more data, wrong prefix, duplicated header, empty} x {default error path, configured error handler}; one request per cell; plus every subset of omitted parameters on a 5-parameter operation; CORR of the runtime model (value classes); CORR of the integer layer: boundary and seeded texts (signs, leading zeros, 32/64-bit bounds and their neighbours, junk, non-ASCII digits) through strconv.ParseInt and through the runtime binder into int32/int64 vs IntParse.parseInt; CORR of the date layer: fixed and seeded texts (leap days, month/day bounds, short and long fields, other separators, junk) through time.Parse and the runtime binder into openapi_types.Date vs DateParse.parse; the same for booleans (every letter-case spelling) and UUIDs (canonical, urn, braces, 32 digits, damaged texts) vs IntParse.parseBool / UuidParse.parse; non-trivial = every cell Session 9: query and cookie parameters called accept / content-type / Authorization; 3 and 5 query parameters next to required header and cookie parameters."
 	if err := corrCodec(ctx, "C06"); err != nil {
 		return err
 	}
